@@ -71,8 +71,18 @@ def imp_deck(g):
                 cell['imptxt'] = 'imp:n=%d' % new if g['mode'] == 'data1' else 'imp:n=%d imp:p=%d' % (new, 0)
                 cell['imp'] = new
         deck['mixed'] = True
+    # an interior slab written LIKE n BUT TRCL=(2 0 0) (the slab before it, moved by one pitch): a cell card like
+    # any other for the IMP data cards - the entry at ITS position is its importance
+    if g['mode'] in ('data1', 'data2') and not deck.get('mixed') and g['ncell'] >= 4 and (len(g['tokN']) + g['ncell']) % 2 == 0:
+        byn = {c['n']: c for c in cells}
+        for i in range(2, g['ncell'] - 1):
+            if byn[i]['fill'] == 0 and byn[i + 1]['fill'] == 0:
+                byn[i + 1]['like'] = i
+                byn[i + 1]['but'] = ['trcl=(2 0 0)']
+                deck['likecell'] = True
+                break
     deck['feat'] = {'mode': g['mode'], 'withu': g['withu'],
-                    'shorthand': any(t[0] != 'v' for t in g['tokN'] + g['tokP'])}
+                    'shorthand': any(t[0] != 'v' for t in g['tokN'] + g['tokP']), 'likecell': bool(deck.get('likecell'))}
     return deck
 
 
